@@ -62,7 +62,10 @@ func (x *Exec) externCall(st *State, fn *ssa.Function, args []Val, pos token.Pos
 		r.DeclFunc("strings_Fields", []string{"Str"}, "Seq_Str")
 		r.Axiom("(assert (forall ((s Str) (i Int)) (! (=> (and (<= 0 i) (< i (len_Str (strings_Fields s)))) (> (slen (at_Str (strings_Fields s) i)) 0)) :pattern ((at_Str (strings_Fields s) i)))))")
 		r.Axiom("(assert (= (len_Str (strings_Fields sempty)) 0))")
-		return one(mkT("Seq_Str", App("Seq_Str", "strings_Fields", T(0)).S, types.NewSlice(types.Typ[types.String])))
+		fv := App("Seq_Str", "strings_Fields", T(0))
+		x.ownedCtr++
+		st.owned[x.ownedCtr] = &OwnedState{content: fv, depth: x.loopDepth(st)}
+		return one(&Owned{id: x.ownedCtr, off: IntLit(0), n: App("Int", "len_Str", fv), T: types.NewSlice(types.Typ[types.String])})
 	case "strings.TrimSpace":
 		use("strings.TrimSpace: uninterpreted function strings_TrimSpace(s), no longer than s")
 		r.DeclFunc("strings_TrimSpace", []string{"Str"}, "Str")
